@@ -327,6 +327,22 @@ Definition set_giaddr (pkt : bytes) (gi : option bytes) : bytes :=
 Definition increment_hops (pkt : bytes) : bytes :=
   if (3 <? length pkt)%nat then overwrite pkt 3 [(nth 3 pkt 0 + 1) mod 256] else pkt.
 
+(* ------------------------------------------------------------------ the relay pipelines (plugins/dhcp4/relay, plugins/dhcp4/proxy
+   provider.go handleForward): the calls they make on ONE buffer, composed *)
+(* client -> server: SetGIAddr; IncrementHops; InsertOption82(BuildOption82(...), policy) *)
+Definition relay_forward4 (v : variant) (pkt : bytes) (gi : option bytes) (o82 : bytes) (pol : policy) : result bytes :=
+  insert_option82 v (increment_hops (set_giaddr pkt gi)) o82 pol.
+(* server -> client, relay: StripOption82; source = option 54 if present else giaddr; WrapIPUDP *)
+Definition relay_reply4 (v : variant) (reply : bytes) (gi : option bytes) : result bytes :=
+  r <- strip_option82 v reply ;;
+  sid <- get_option4 r 54 ;;
+  wrap_ip_udp r (match sid with Some s => Some s | None => gi end) (Some [255;255;255;255]).
+(* server -> client, proxy: StripOption82; RewriteForProxy(giaddr, lease); WrapIPUDP(giaddr) *)
+Definition proxy_reply4 (v : variant) (reply : bytes) (gi : option bytes) (lease : N) : result bytes :=
+  r <- strip_option82 v reply ;;
+  r2 <- rewrite_for_proxy v r gi lease ;;
+  wrap_ip_udp r2 gi (Some [255;255;255;255]).
+
 (* ------------------------------------------------------------------ plugins/dhcp4/local/provider.go *)
 (* optionWriter.addByte: before 35c2549 the length byte was uint8(len(data)) (Defective); HEAD: RFC 3396 split *)
 Fixpoint add_opt_split (fuel : nat) (code : N) (data : bytes) : bytes :=
